@@ -33,7 +33,8 @@ def main():
     res["repo_head"] = head
     # clean tree + demo
     shutil.copy(demo, f"{wt}/tests/seeded_demo.rs")
-    rc, out = sh("cargo test --offline -p e57 --test seeded_demo 2>&1 | tail -15", cwd=wt, env=env)
+    dflags = os.environ.get("SEED_DEMO_FLAGS", "")  # e.g. "--features crc32c" for demos of the accelerated backend
+    rc, out = sh(f"cargo test --offline -p e57 {dflags} --test seeded_demo 2>&1 | tail -15", cwd=wt, env=env)
     res["demo_clean_passes"] = ("test result: ok" in out) and ("FAILED" not in out)
     os.remove(f"{wt}/tests/seeded_demo.rs")
     # patch applies
@@ -47,7 +48,7 @@ def main():
     res["suite_with_patch"] = out.strip().splitlines()[-1] if out.strip() else ""
     res["suite_passes_with_patch"] = "85 passed" in out and "failed" not in out
     shutil.copy(demo, f"{wt}/tests/seeded_demo.rs")
-    rc, out = sh("cargo test --offline -p e57 --test seeded_demo 2>&1 | tail -25", cwd=wt, env=env)
+    rc, out = sh(f"cargo test --offline -p e57 {dflags} --test seeded_demo 2>&1 | tail -25", cwd=wt, env=env)
     res["demo_fails_with_patch"] = "FAILED" in out or "panicked" in out
     res["demo_failure_excerpt"] = "\n".join(l for l in out.splitlines() if "panicked" in l or "assert" in l.lower())[:600]
     os.remove(f"{wt}/tests/seeded_demo.rs")
